@@ -1,0 +1,114 @@
+//! Verification hooks for the roto-filter property (C10; feature
+//! `verif-hooks`, add-only). Mounted as a child module of
+//! `bgp_tcp_in::router_handler` because `Processor` and the `BgpSession`
+//! trait are private there.
+//!
+//! Nothing here has behaviour of its own: `run_session` builds a `Processor`
+//! through its `new` with a caller-supplied compiled `bgp-in` function and
+//! runs the real `Processor::process` loop over an in-memory session (the
+//! same shape as `MockBgpSession` in the module's tests: negotiated config
+//! `NegotiatedConfig::dummy()`, a tick that never fires), feeding it the
+//! given UPDATE messages and then closing the session channel.
+
+use std::collections::HashMap;
+use std::net::SocketAddr;
+use std::sync::{Arc, Mutex};
+
+use bytes::Bytes;
+use inetnum::asn::Asn;
+use routecore::bgp::fsm::session::{self, Message, NegotiatedConfig};
+use routecore::bgp::message::UpdateMessage;
+use tokio::sync::mpsc;
+
+use super::super::peer_config::{CombinedConfig, PeerConfig, PrefixOrExact};
+use super::super::unit::BgpTcpIn;
+use super::{BgpSession, Processor};
+use crate::comms::{AnyDirectUpdate, Gate};
+use crate::ingress;
+use crate::roto_runtime::types::Provenance;
+use crate::roto_runtime::Ctx;
+
+/// The same type as the crate-private alias `bgp_tcp_in::unit::RotoFunc`.
+pub type BgpInFunc = roto::TypedFunc<
+    Ctx,
+    (roto::Val<UpdateMessage<Bytes>>, roto::Val<Provenance>),
+    roto::Verdict<(), ()>,
+>;
+
+struct MemSession(CombinedConfig, NegotiatedConfig);
+
+#[async_trait::async_trait]
+impl BgpSession<CombinedConfig> for MemSession {
+    fn config(&self) -> &CombinedConfig {
+        &self.0
+    }
+
+    fn connected_addr(&self) -> Option<SocketAddr> {
+        Some("1.2.3.4:12345".parse().unwrap())
+    }
+
+    fn negotiated(&self) -> Option<&NegotiatedConfig> {
+        Some(&self.1)
+    }
+
+    async fn tick(&mut self) -> Result<(), session::Error> {
+        std::future::pending::<()>().await;
+        Ok(())
+    }
+}
+
+/// Runs `Processor::process` for one session that receives `msgs` and is then
+/// closed. Everything the processor publishes on its gate is delivered to
+/// `target` (a direct-update link subscribed before the first message).
+pub async fn run_session(
+    f: Option<BgpInFunc>,
+    ingress_id: ingress::IngressId,
+    msgs: Vec<UpdateMessage<Bytes>>,
+    target: Arc<dyn AnyDirectUpdate>,
+) {
+    let unit_cfg = BgpTcpIn {
+        listen: "dummy-listen-address".to_string(),
+        my_asn: Asn::from_u32(12345),
+        my_bgp_id: Default::default(),
+        peer_configs: Default::default(),
+        filter_name: Default::default(),
+    };
+    let peer_config: PeerConfig =
+        toml::from_str("name = \"MOCK\"\nremote_asn = []").unwrap();
+    let remote_net = PrefixOrExact::Exact("10.0.0.1".parse().unwrap());
+    let config =
+        CombinedConfig::new(unit_cfg.clone(), peer_config, remote_net);
+    let session = MemSession(config, NegotiatedConfig::dummy());
+
+    let (gate, mut gate_agent) = Gate::new(0);
+    let (cmds_tx, _cmds_rx) = mpsc::channel(16);
+    let (pdu_out_tx, _pdu_out_rx) = mpsc::channel(16);
+    let mut p = Processor::new(
+        f,
+        gate,
+        unit_cfg,
+        cmds_tx,
+        pdu_out_tx,
+        Default::default(),
+        Arc::new(ingress::Register::default()),
+        ingress_id,
+    );
+
+    let (sess_tx, sess_rx) = mpsc::channel::<Message>(msgs.len() + 1);
+    let live_sessions = Arc::new(Mutex::new(HashMap::new()));
+    let mut link = gate_agent.create_link();
+    link.set_direct_update_target(target);
+
+    let feeder = async move {
+        // The subscription is handled by the `gate.process()` arm of the
+        // processor's select loop.
+        let _ = link.connect(false).await;
+        for m in msgs {
+            let _ = sess_tx.send(Message::UpdateMessage(m)).await;
+        }
+        drop(sess_tx);
+        link
+    };
+    let (_link, _) =
+        tokio::join!(feeder, p.process(session, sess_rx, live_sessions));
+}
